@@ -390,6 +390,9 @@ func (w *c16World) limWlUnav(replicas int) int {
 
 // nonHeadroomReason: why this pod may not be migrated at all (nothing to do with free slots).
 func (w *c16World) nonHeadroomReason(p *corev1.Pod) string {
+	if c16Forced(p) {
+		return "" // the override annotation lets the pod pass every evictability check
+	}
 	if p.Annotations[extension.AnnotationEvictionCost] == strconv.Itoa(math.MaxInt32) {
 		return "max-eviction-cost"
 	}
@@ -614,6 +617,28 @@ func c16I32(v *int32) string {
 
 // ---------------------------------------------------------------- the test
 
+// c16Opts switches on the generator extensions of TestVerifC16ArbitrationEvents. Everything they add is guarded so that
+// with the zero value the draw sequence of TestVerifC16ArbitrationRounds (and its committed regress file) is unchanged.
+type c16Opts struct {
+	// events: after every round the informer delivers the Update events of the jobs the round has written (annotation
+	// of a passed job - phase still empty -, status of a failed job) to the real arbitration event handler.
+	events bool
+	// evictAnnotated: some pods carry the override annotation descheduler.alpha.kubernetes.io/evict (their jobs pass
+	// every filter by design) and the descheduler asks again and again to evict them.
+	evictAnnotated bool
+}
+
+// the override annotation, spelled out here on purpose (not taken from the code under test)
+const c16EvictAnnotation = "descheduler.alpha.kubernetes.io/evict"
+
+func c16Forced(p *corev1.Pod) bool {
+	if p == nil {
+		return false
+	}
+	_, ok := p.Annotations[c16EvictAnnotation]
+	return ok
+}
+
 func TestVerifC16ArbitrationRounds(t *testing.T) {
 	c16kit.QuietKlog()
 	rec := vk.New(t, "C16", "arbitrationRounds")
@@ -621,7 +646,25 @@ func TestVerifC16ArbitrationRounds(t *testing.T) {
 	rapid.Check(t, func(t *rapid.T) {
 		c := rec.Begin()
 		defer c.End()
+		c16ArbitrationCase(t, c, handle, c16Opts{})
+	})
+}
 
+// The same state machine with the event handler in the loop after every round and with pods that carry the evict
+// override annotation (see c16Opts).
+func TestVerifC16ArbitrationEvents(t *testing.T) {
+	c16kit.QuietKlog()
+	rec := vk.New(t, "C16", "arbitrationEvents")
+	handle := c16Handle()
+	rapid.Check(t, func(t *rapid.T) {
+		c := rec.Begin()
+		defer c.End()
+		c16ArbitrationCase(t, c, handle, c16Opts{events: true, evictAnnotated: true})
+	})
+}
+
+func c16ArbitrationCase(t *rapid.T, c *vk.Case, handle framework.Handle, opt c16Opts) {
+	{
 		w := &c16World{c: c16NewClient(), byUID: map[types.UID]*c16Workload{}, ghost: map[types.UID]bool{}}
 		w.args = &config.MigrationControllerArgs{
 			DefaultJobMode:            string(v1alpha1.PodMigrationJobModeReservationFirst),
@@ -653,13 +696,24 @@ func TestVerifC16ArbitrationRounds(t *testing.T) {
 			w.nss = append(w.nss, fmt.Sprintf("ns%d", i))
 		}
 		sawTerminatingReady, restarts, sawStalePassed, sawNoUID, sawFilterDupNoUID := false, 0, false, false, false
+		sawForcedPod, sawForcedDup, sawForcedAdmitted, sawPassedEvent, sawRoundAfterPassedEvent := false, false, false, false, false
+		passedEventPending := map[types.UID]bool{} // jobs whose "passed" Update event (phase still empty) has been delivered
 		genPod := func(wl *c16Workload, ns string) *corev1.Pod {
 			node := rapid.SampledFrom(w.nodes).Draw(t, "podNode")
 			ready := rapid.IntRange(0, 4).Draw(t, "podReady") > 0
 			prio := int32(rapid.SampledFrom([]int{0, 0, 5000, 9000}).Draw(t, "podPrio"))
 			maxCost := rapid.IntRange(0, 19).Draw(t, "podMaxCost") == 0
 			terminating := rapid.IntRange(0, 24).Draw(t, "podTerminating") == 0
+			forced := opt.evictAnnotated && rapid.IntRange(0, 4).Draw(t, "podEvictAnnotated") == 0
 			p := w.newPod(wl, ns, node, ready, prio, maxCost)
+			if forced {
+				p.Annotations[c16EvictAnnotation] = "true"
+				if err := w.c.Update(context.TODO(), p); err != nil {
+					panic(err)
+				}
+				w.dirty()
+				sawForcedPod = true
+			}
 			if terminating {
 				w.terminate(p) // being deleted, but still Running (and Ready if it was): not available any more
 				sawTerminatingReady = sawTerminatingReady || (ready && wl != nil)
@@ -668,7 +722,7 @@ func TestVerifC16ArbitrationRounds(t *testing.T) {
 			if wl != nil {
 				wn = wl.Name
 			}
-			w.logf("pod %s wl=%s node=%s ready=%v prio=%d maxCost=%v terminating=%v", c16Key(p), wn, node, ready, prio, maxCost, terminating)
+			w.logf("pod %s wl=%s node=%s ready=%v prio=%d maxCost=%v terminating=%v evictAnnotated=%v", c16Key(p), wn, node, ready, prio, maxCost, terminating, forced)
 			return p
 		}
 		for i, n := 0, rapid.IntRange(1, 4).Draw(t, "workloads"); i < n; i++ {
@@ -805,7 +859,7 @@ func TestVerifC16ArbitrationRounds(t *testing.T) {
 						continue
 					}
 					p := pods[j.Spec.PodRef.Namespace+"/"+j.Spec.PodRef.Name]
-					if p == nil || w.nonHeadroomReason(p) != "" {
+					if p == nil || w.nonHeadroomReason(p) != "" || c16Forced(p) {
 						continue
 					}
 					add("global", w.limGlobal(), before.global)
@@ -827,6 +881,22 @@ func TestVerifC16ArbitrationRounds(t *testing.T) {
 					}
 				}
 			}
+
+			// shape for the event rule: a job that passed earlier, whose Update event (phase still empty) has already been
+			// delivered, is still pending while other jobs are waiting in this round
+			for _, uid := range waiting {
+				j := jobsBefore[uid]
+				if j == nil || c16Active(j) || !c16Live(j) || pods[j.Spec.PodRef.Namespace+"/"+j.Spec.PodRef.Name] == nil {
+					continue
+				}
+				for puid := range passedEventPending {
+					if pj := jobsBefore[puid]; pj != nil && c16Phase(pj) == v1alpha1.PodMigrationJobPending && c16Passed(pj) {
+						sawRoundAfterPassedEvent = true
+					}
+				}
+			}
+			// admissions forced by the override annotation in this round, per scope: they come on top of the limits by design
+			forcedGlobal, forcedNode, forcedNs, forcedWl := 0, map[string]int{}, map[string]int{}, map[types.UID]int{}
 
 			a.doOnceArbitrate()
 			w.dirty()
@@ -869,6 +939,17 @@ func TestVerifC16ArbitrationRounds(t *testing.T) {
 						w.ghost[uid] = true
 						sawGhost = true
 					}
+					if c16Forced(p) {
+						sawForcedAdmitted = true
+						forcedGlobal++
+						forcedNs[p.Namespace]++
+						if p.Spec.NodeName != "" {
+							forcedNode[p.Spec.NodeName]++
+						}
+						if o := metav1.GetControllerOf(p); o != nil {
+							forcedWl[o.UID]++
+						}
+					}
 				default:
 					refusedNow = append(refusedNow, ja.Name)
 					sawRefused = true
@@ -893,7 +974,7 @@ func TestVerifC16ArbitrationRounds(t *testing.T) {
 					}
 				}
 			}
-			chk := func(scope string, limit, b, af int) bool {
+			chk := func(scope string, limit, b, af, forced int) bool {
 				if limit <= 0 {
 					return false
 				}
@@ -904,42 +985,62 @@ func TestVerifC16ArbitrationRounds(t *testing.T) {
 				if b > bound {
 					bound = b
 				}
+				bound += forced // jobs of pods with the override annotation pass whatever the limits say
 				if af > bound {
 					sig := "arbitration:over-limit:" + strings.SplitN(scope, " ", 2)[0]
 					if stalePassed > 0 {
 						// a different defect than a wrong limit check: the new arbitrator does not know yet about jobs admitted before the restart
 						sig = "arbitration:over-limit-after-restart:passed-job-not-yet-rearbitrated"
 					}
-					viol(sig, "round %d: %s: %d active after the round, limit %d, %d before the round (%d passed-pending jobs replayed after a restart were still waiting for re-arbitration)", rounds, scope, af, limit, b, stalePassed)
+					viol(sig, "round %d: %s: %d active after the round, limit %d, %d before the round, %d admitted through the evict override annotation (%d passed-pending jobs replayed after a restart were still waiting for re-arbitration)", rounds, scope, af, limit, b, forced, stalePassed)
 					return true
 				}
 				return false
 			}
-			if chk("global", w.limGlobal(), before.global, after.global) {
+			if chk("global", w.limGlobal(), before.global, after.global, forcedGlobal) {
 				return
 			}
 			for _, n := range w.nodes {
-				if chk("node "+n, w.limNode(), before.node[n], after.node[n]) {
+				if chk("node "+n, w.limNode(), before.node[n], after.node[n], forcedNode[n]) {
 					return
 				}
 			}
 			for _, n := range w.nss {
-				if chk("namespace "+n, w.limNs(), before.ns[n], after.ns[n]) {
+				if chk("namespace "+n, w.limNs(), before.ns[n], after.ns[n], forcedNs[n]) {
 					return
 				}
 			}
 			for _, wl := range w.workloads {
 				r := int(wl.Replicas)
-				if chk("workload-migrating "+wl.Name, w.limWlMig(r), before.wlMig[wl.UID], after.wlMig[wl.UID]) {
+				if chk("workload-migrating "+wl.Name, w.limWlMig(r), before.wlMig[wl.UID], after.wlMig[wl.UID], forcedWl[wl.UID]) {
 					return
 				}
-				if chk("workload-unavailable "+wl.Name, w.limWlUnav(r), before.wlUnav[wl.UID], after.wlUnav[wl.UID]) {
+				if chk("workload-unavailable "+wl.Name, w.limWlUnav(r), before.wlUnav[wl.UID], after.wlUnav[wl.UID], forcedWl[wl.UID]) {
 					return
+				}
+			}
+			// the informer delivers what the round has written to the arbitrator's own event handler
+			if opt.events {
+				var delivered []string
+				for _, ja := range w.jobs() {
+					jb := jobsBefore[ja.UID]
+					if jb == nil || jb.ResourceVersion == ja.ResourceVersion {
+						continue
+					}
+					h.Update(ctx, event.UpdateEvent{ObjectOld: jb, ObjectNew: ja}, q)
+					delivered = append(delivered, fmt.Sprintf("%s(phase=%q)", ja.Name, ja.Status.Phase))
+					if c16Phase(ja) == v1alpha1.PodMigrationJobPending && c16Passed(ja) && ja.Status.Phase == "" {
+						passedEventPending[ja.UID] = true
+						sawPassedEvent = true
+					}
+				}
+				if len(delivered) > 0 {
+					w.logf("update events delivered: %v", delivered)
 				}
 			}
 		}
 
-		t.Repeat(map[string]func(*rapid.T){
+		actions := map[string]func(*rapid.T){
 			// the descheduler wants to migrate a pod: Reconciler.Evict = arbitrator.Filter, then create the job
 			"deschedulerEvict": func(t *rapid.T) {
 				if dead {
@@ -954,6 +1055,7 @@ func TestVerifC16ArbitrationRounds(t *testing.T) {
 				ok := a.Filter(p)
 				if liveJob != nil {
 					sawFilterDup = true
+					sawForcedDup = sawForcedDup || c16Forced(p)
 					sawFilterDupNoUID = sawFilterDupNoUID || liveJob.Spec.PodRef.UID == ""
 					if ok {
 						viol("arbitration:second-live-job-allowed", "Filter(%s) = true although %s (phase %q) is a live job for that pod", c16Key(p), liveJob.Name, liveJob.Status.Phase)
@@ -1155,7 +1257,40 @@ func TestVerifC16ArbitrationRounds(t *testing.T) {
 			"round":  round,
 			"round2": round,
 			"round3": round,
-		})
+		}
+		if opt.evictAnnotated {
+			// every plugin / every cycle selects the annotated pods again
+			actions["deschedulerEvictAnnotated"] = func(t *rapid.T) {
+				if dead {
+					return
+				}
+				var cands []*corev1.Pod
+				for _, p := range w.pods() {
+					if c16Forced(p) {
+						cands = append(cands, p)
+					}
+				}
+				if len(cands) == 0 {
+					t.Skip("no annotated pod")
+				}
+				p := rapid.SampledFrom(cands).Draw(t, "pod")
+				liveJob := w.liveJobOf(p)
+				ok := a.Filter(p)
+				if liveJob != nil {
+					sawFilterDup, sawForcedDup = true, true
+					if ok {
+						viol("arbitration:second-live-job-allowed", "Filter(%s) = true although %s (phase %q) is a live job for that pod (the pod carries the evict override annotation)", c16Key(p), liveJob.Name, liveJob.Status.Phase)
+						return
+					}
+				}
+				if ok {
+					addJob(t, p, "descheduler job (annotated pod)", true)
+				} else {
+					w.logf("descheduler evict of annotated %s refused by Filter", c16Key(p))
+				}
+			}
+		}
+		t.Repeat(actions)
 		if !dead {
 			round(t) // every case ends with a round
 		}
@@ -1173,6 +1308,11 @@ func TestVerifC16ArbitrationRounds(t *testing.T) {
 		c.ClassIf(restarts > 0, "arbitrator-restarted")
 		c.ClassIf(sawStalePassed, "round-with-replayed-passed-job")
 		c.ClassIf(sawNoUID, "job-with-podref-without-uid")
+		c.ClassIf(sawForcedPod, "pod-with-evict-override-annotation")
+		c.ClassIf(sawForcedDup, "filter-asked-for-annotated-pod-with-live-job")
+		c.ClassIf(sawForcedAdmitted, "job-admitted-through-override-annotation")
+		c.ClassIf(sawPassedEvent, "update-event-of-passed-job-with-empty-phase-delivered")
+		c.ClassIf(sawRoundAfterPassedEvent, "round-with-waiting-jobs-while-such-a-job-is-still-pending")
 		c.ClassIf(sawFilterDupNoUID, "filter-asked-for-pod-with-live-job-without-uid")
 		c.ClassIf(len(w.args.SkipEvictionGates) > 0, "skip-gates:some")
 		for _, g := range c16AllGates[:6] {
@@ -1186,5 +1326,5 @@ func TestVerifC16ArbitrationRounds(t *testing.T) {
 			c.NonTrivial(limits, w.hist)
 		}
 		c.Sample(map[string]any{"limits": limits, "history": w.hist})
-	})
+	}
 }
